@@ -32,6 +32,11 @@ type Ext struct {
 	// SkipPeerChecks makes this side skip its own range/validity checks on
 	// the peer's public value (used when it deliberately sent nonsense first).
 	SkipPeerChecks bool
+	// BeforeWrite is called (with the write lock held) before every packet this
+	// side sends, the scripted ones and those of the key exchange alike.  It may
+	// call c.KexWrite to insert packets in front of payload; packets written
+	// from inside the hook do not trigger it again.
+	BeforeWrite func(c *Conn, payload []byte)
 }
 
 // ErrAbort can be returned from OnGexGroup to stop after the group was seen.
